@@ -113,6 +113,27 @@ let () = serve (fun fn req ->
       | _ -> raise (Model_error "bad gap op")) (jlist (jfield req "ops"));
     JObj [("rows", of_list of_row !t); ("returns", JArr (SL.rev !returns));
           ("records", of_list of_row (address_records !t)); ("max_gap", of_n (max_gap !t))]
+  | "shared_run" ->
+    (* one database, a single-address and a deterministic account of the same key; ops: ["single"] | ["ensure", gap] | ["use", n, times] *)
+    let prefix = jbytes (jfield req "prefix") and acct = to_xkey (jfield req "acct") in
+    let flt = jbool (jfield req "flt") in
+    let master = (match address o_hash160 o_dsha prefix acct.xk_key with Ok a -> a | Err e -> raise (Model_error (err_name e))) in
+    let memo : (string, byte list) Stdlib.Hashtbl.t = Stdlib.Hashtbl.create 64 in
+    let addr_of i =
+      let key = string_of_n i in
+      match Stdlib.Hashtbl.find_opt memo key with
+      | Some a -> a
+      | None ->
+        (match chain_address o_hmac512 o_pub_add o_hash160 o_dsha prefix acct N0 i with
+         | Ok a -> Stdlib.Hashtbl.replace memo key a; a
+         | Err e -> raise (Model_error ("chain_address " ^ err_name e))) in
+    let ops = SL.map (fun op -> match jlist op with
+      | JStr "single" :: _ -> SSingleEnsure
+      | JStr "ensure" :: g :: _ -> SHd (GEnsure (jnat g))
+      | JStr "use" :: i :: k :: _ -> SHd (GUse (jn i, jn k))
+      | _ -> raise (Model_error "bad shared op")) (jlist (jfield req "ops")) in
+    let t = srun addr_of master flt ops in
+    JObj [("hd", of_list of_row (manager_view flt false t)); ("single", of_list of_row (manager_view flt true t))]
   | "set_words" -> words := SL.map jbytes (jlist (jfield req "words")); of_int (SL.length !words)
   | "mn_encode" -> of_bytes (mnemonic_encode !words (jn (jfield req "i")))
   | "mn_words" -> of_list of_bytes (mnemonic_words !words (jn (jfield req "i")))
